@@ -57,6 +57,9 @@ pub struct LongScript {
     /// mode 0: short forks near the tips (many tips far from the anchor)
     pub twigs: bool,
     pub a_recent: Vec<usize>,
+    /// mode 1: the first block of the second period is stamped 20 days ahead and the next one
+    /// goes back to median-time-past + 1, so that the period's timespan is negative
+    pub backdate: bool,
 }
 
 pub fn profile_networks(profile: &str) -> &'static [&'static str] {
@@ -153,6 +156,45 @@ pub fn draw_config(profile: &str, seed: u64, tier_thorough: bool) -> (RunConfig,
                 // keep > 10,000 transactions unstable: the window is cut inside a block
                 sw.upgrades = true;
                 sw.weights = [40, 40, 28, 12, 0, 6, 1];
+                // scripted prefix: four big blocks on the best chain, delivered, then requests
+                let mut q = std::collections::VecDeque::new();
+                let sizes = [*rng.pick(&[2500u16, 3300]), *rng.pick(&[3300u16, 4100]), *rng.pick(&[2500u16, 4100]), *rng.pick(&[1500u16, 3300])];
+                let mut parent = 0usize;
+                for (i, n) in sizes.iter().enumerate() {
+                    q.push_back(Event::Mine(MineSpec {
+                        id: i + 1,
+                        parent,
+                        seed: rng.next_u64(),
+                        ntx: 1,
+                        dt: 600,
+                        difficulty: 0,
+                        special: Special::ManyTxs { n: *n },
+                        mutation: Mutation::None,
+                        remine: 0,
+                    }));
+                    parent = i + 1;
+                }
+                for _ in 0..3 {
+                    sync_round(&mut q, ReplySpec::Honest { max_blocks: 4, max_next: 0, page: 4_000_000, lag: 0, include_invalid: false });
+                }
+                q.push_back(Event::Client(ClientOp::FeePercentiles));
+                if rng.chance(1, 2) {
+                    q.push_back(Event::Upgrade { arg: None });
+                    q.push_back(Event::Mine(MineSpec {
+                        id: 5,
+                        parent: 4,
+                        seed: rng.next_u64(),
+                        ntx: 2,
+                        dt: 600,
+                        difficulty: 0,
+                        special: Special::None,
+                        mutation: Mutation::None,
+                        remine: 0,
+                    }));
+                    sync_round(&mut q, ReplySpec::Honest { max_blocks: 4, max_next: 0, page: 4_000_000, lag: 0, include_invalid: false });
+                    q.push_back(Event::Client(ClientOp::FeePercentiles));
+                }
+                sw.script = Some(LongScript { mode: 2, queue: q, ..Default::default() });
                 sw.fork_propensity = 1;
                 sw.max_events = sw.max_events.max(90);
             }
@@ -241,18 +283,40 @@ pub fn draw_config(profile: &str, seed: u64, tier_thorough: bool) -> (RunConfig,
         network = rng.pick(&["testnet", "testnet", "mainnet"]).to_string();
         threshold = *rng.pick(&[2u32, 3]);
         let plans: [[u8; 3]; 8] = [[0, 2, 1], [0, 2, 3], [0, 3, 3], [1, 0, 2], [2, 0, 3], [0, 0, 2], [3, 1, 0], [0, 1, 3]];
-        let plan = rng.pick(&plans).to_vec();
+        let mut plan = rng.pick(&plans).to_vec();
+        let target_height = *rng.pick(&[2060u32, 2060, 4070, 4070, 4070]);
+        let backdate = target_height > 4032 && rng.chance(1, 3);
+        if backdate {
+            plan[1] = 1; // regular cadence: the period ends about six days "before" it began
+        }
         sw.script = Some(LongScript {
             mode: 1,
             period_plan: plan,
-            target_height: *rng.pick(&[2060u32, 2060, 4070, 4070, 4070]),
+            target_height,
             candidates_left: 70,
+            backdate,
             ..Default::default()
         });
     }
     let lazy_fees = rng.chance(1, 2);
     let sync_flag = profile == "C14" && rng.chance(3, 4);
-    let fees = if profile == "C16" && rng.chance(2, 3) {
+    let fees = if profile == "C16" && rng.chance(1, 10) {
+        // an explicit all-zero table is a table like any other
+        Some(FeeSpec {
+            get_utxos_base: 0,
+            get_utxos_rate: 0,
+            get_utxos_maximum: 0,
+            get_balance: 0,
+            get_balance_maximum: 0,
+            fee_percentiles: 0,
+            fee_percentiles_maximum: 0,
+            send_base: 0,
+            send_per_byte: 0,
+            headers_base: 0,
+            headers_rate: 0,
+            headers_maximum: 0,
+        })
+    } else if profile == "C16" && rng.chance(2, 3) {
         Some(draw_fees(&mut rng))
     } else {
         None
@@ -559,12 +623,19 @@ fn header_chain_next(sw: &mut Swarm, w: &World, rng: &mut Rng) -> Event {
     for i in 0..k {
         let h = height + i + 1;
         let plan = sc.period_plan[((h / 2016) as usize).min(sc.period_plan.len() - 1)];
-        let dt = match plan {
+        let mut dt = match plan {
             0 => rng.range(60, 200) as u32,
             1 => rng.range(500, 700) as u32,
             2 => rng.range(2400, 2700) as u32,
             _ => *rng.pick(&[1300u32, 1300, 1300, 1300, 1201, 1200, 1199, 600, 300, 2500]),
         };
+        let mut mutation = Mutation::None;
+        if sc.backdate && h == 2016 {
+            dt = 20 * 86_400;
+        }
+        if sc.backdate && h == 2017 {
+            mutation = Mutation::TimeMtp(1); // valid, and far below the parent's timestamp
+        }
         sc.queue.push_back(Event::Mine(MineSpec {
             id: next_id,
             parent,
@@ -573,7 +644,7 @@ fn header_chain_next(sw: &mut Swarm, w: &World, rng: &mut Rng) -> Event {
             dt,
             difficulty: 0,
             special: Special::BareCoinbase,
-            mutation: Mutation::None,
+            mutation,
             remine: 0,
         }));
         parent = next_id;
@@ -627,6 +698,18 @@ fn header_chain_next(sw: &mut Swarm, w: &World, rng: &mut Rng) -> Event {
 fn long_next(sw: &mut Swarm, w: &World, rng: &mut Rng) -> Event {
     if sw.script.as_ref().unwrap().mode == 1 {
         return header_chain_next(sw, w, rng);
+    }
+    if sw.script.as_ref().unwrap().mode == 2 {
+        // a scripted prefix; random generation takes over when it is used up
+        let sc = sw.script.as_mut().unwrap();
+        if let Some(ev) = sc.queue.pop_front() {
+            return match ev {
+                Event::Deliver { .. } if w.tasks.is_empty() => Event::Heartbeat { pause_at: 0 },
+                other => other,
+            };
+        }
+        sw.script = None;
+        return next_event(sw, w, rng);
     }
     let sc = sw.script.as_mut().unwrap();
     if let Some(ev) = sc.queue.pop_front() {
